@@ -94,7 +94,7 @@ def run(ctx, progs):
                 tot = eff.inline(total)
                 ok = False
                 d = f"count `{tstr(tot)}`"
-                if is_call(tot, "cmp::min", "Ord::min"):
+                if is_call(tot, "cmp::min"):
                     xs = [eff.inline(x) for x in tot[2]]
                     has_guest = any(self_len_of(x, guest, eff) for x in xs)
                     has_host = hx is not None and any(is_call(x, "slice::len") and unref(x[2][0]) == hx for x in xs)
